@@ -17,8 +17,9 @@ Executable, import-free transcription of
 
 What is a parameter (`Cfg`): `enc`/`dec` (= `zlib.compress(pickle.dumps(.),3)` and
 `pickle.loads(zlib.decompress(.))` with every exception mapped to `none`), which messages make the
-`onMessageReceived` callback call `conn.disconnect()`, which message *is* Python's `None` (the parse loop
-uses `None` as its "no message" sentinel), and the read time-out.
+`onMessageReceived` callback call `conn.disconnect()`, and the read time-out.  (Repairs modelled besides D13:
+D53 `__processConnection`, D75 sentinel for "no frame" — `None` is an ordinary message —, D76 WRITE interest
+re-armed by `__trySendBuffer`.)
 
 The environment (socket, poller, clock) is an oracle carried by the events: every `socket.send` answers
 with a `SendRes`, every `socket.recv` with a `RecvRes`, `getsockopt(SO_ERROR)` with a `Bool`, the clock
@@ -60,8 +61,6 @@ structure Cfg (Msg : Type) where
   enc : Msg → Bytes
   /-- `pickle.loads(zlib.decompress(p))`, `none` = any exception -/
   dec : Bytes → Option Msg
-  /-- the message is Python's `None` (sentinel of the parse loop) -/
-  isNone : Msg → Bool
   /-- `onMessageReceived(m)` calls `conn.disconnect()` -/
   cbDisc : Msg → Bool
   /-- `timeout` constructor argument (same unit as `now`) -/
@@ -153,10 +152,15 @@ def sendLoop (c : Conn Msg) : List SendRes → Conn Msg
     | .again => c
     | .err => disconnect c
 
-/-- `__trySendBuffer` (232-237) -/
+/-- `__trySendBuffer` (232-237), with the repair D76: when the socket did not take everything and the
+connection is CONNECTED, the descriptor is (re)subscribed with READ|WRITE|ERROR, so that a WRITE event
+continues the flush (the WRITE branch drops the interest again once the buffer is empty). -/
 def trySend (cfg : Cfg Msg) (c : Conn Msg) (now : Nat) (sends : List SendRes) : Conn Msg :=
   let c := timeoutCheck cfg c now
-  if c.state = .disconnected then c else sendLoop c sends
+  if c.state = .disconnected then c
+  else
+    let c := sendLoop c sends
+    if c.wbuf ≠ [] ∧ c.state = .connected then { c with pollMask := some 7 } else c
 
 /-- `send(message)` (141-149).  A payload of 2^31 bytes or more makes `struct.pack('i', …)` raise
 `struct.error` out of `send` (to the caller, not the event loop) before the buffer is touched. -/
@@ -208,16 +212,16 @@ theorem parseOne_msg_length {dec : Bytes → Option Msg} {rb : Bytes} {m : Msg} 
           simp only [List.length_drop]
           omega
 
-/-- the `while True:` loop of `__processConnection` (218-225) -/
+/-- the `while True:` loop of `__processConnection` (218-225), with the repair D75: "no complete frame" is a
+private sentinel object, so every unpickled value — Python's `None` included — is delivered (`.wait`/`.bad` are
+the sentinel, `.msg` is a message whatever its value). -/
 def parseLoop (cfg : Cfg Msg) (c : Conn Msg) : Conn Msg :=
   match _h : parseOne cfg.dec c.rbuf with
   | .wait => c
   | .bad => disconnect c
   | .msg m rest =>
-    if cfg.isNone m then { c with rbuf := rest }                 -- `if message is None: break`
-    else
-      let c' := { c with rbuf := rest, delivered := c.delivered ++ [m] }
-      if cfg.cbDisc m then disconnect c' else parseLoop cfg c'
+    let c' := { c with rbuf := rest, delivered := c.delivered ++ [m] }
+    if cfg.cbDisc m then disconnect c' else parseLoop cfg c'
 termination_by c.rbuf.length
 decreasing_by exact parseOne_msg_length ‹_›
 
@@ -269,6 +273,19 @@ def step (cfg : Cfg Msg) (c : Conn Msg) : Ev Msg → Conn Msg
 
 def run (cfg : Cfg Msg) (c : Conn Msg) (evs : List (Ev Msg)) : Conn Msg :=
   evs.foldl (step cfg) c
+
+/-! ## the unrepaired `send` (no re-arming of the WRITE interest), for the D76 counterexample -/
+
+/-- `__trySendBuffer` before the repair D76 -/
+def trySendPinned (cfg : Cfg Msg) (c : Conn Msg) (now : Nat) (sends : List SendRes) : Conn Msg :=
+  let c := timeoutCheck cfg c now
+  if c.state = .disconnected then c else sendLoop c sends
+
+/-- `send(message)` before the repair D76 -/
+def sendPinned (cfg : Cfg Msg) (c : Conn Msg) (m : Msg) (now : Nat) (sends : List SendRes) : Conn Msg :=
+  if (cfg.enc m).length < 2147483648 then
+    trySendPinned cfg { c with wbuf := c.wbuf ++ frame (cfg.enc m) } now sends
+  else c
 
 /-! ## the pinned (unrepaired) parse function, for the D13 counterexample -/
 
